@@ -1709,3 +1709,57 @@ def direct_lock_nestings(facts, depth=2):
                     pairs[(h, cls, kind)].append((facts.root_of(f).path, c.line, via))
     setattr(facts, key, pairs)
     return pairs
+
+
+# ----------------------------------------------------------------------------- tag maps (P8)
+def emitted_consts(fn):
+    """integer constants a tag writer can return: constants assigned to _0 (directly or through
+    single-assignment locals)."""
+    out = set()
+    named = set()
+    seen = set()
+
+    def from_local(l, depth=0):
+        if depth > 6 or l in seen:
+            return
+        seen.add(l)
+        for d in fn.defs.get(l, []):
+            if d[0] != 'stmt':
+                continue
+            rv = d[3]
+            if rv['k'] in ('use', 'cast'):
+                o = rv['o']
+                if o[0] == 'k':
+                    if isinstance(o[2], int) and not isinstance(o[2], bool):
+                        out.add(o[2])
+                        if len(o) > 3 and o[3]:
+                            named.add(o[3])
+                elif not o[1][1]:
+                    from_local(o[1][0], depth + 1)
+    from_local(0)
+    return out, named
+
+
+def accepted_values(fn, param=1):
+    """values a tag reader accepts: arms of the switch on the parameter (or a copy / field read of it)
+    from which a Return is reachable; ('*' if the otherwise arm can return)."""
+    acc = set()
+    S = sym(fn)
+    found = False
+    for bb in range(fn.nb):
+        t = fn.blocks[bb]['t']
+        if t['k'] != 'sw' or t.get('oty') == 'bool':
+            continue
+        term = S.operand(t['o'])
+        root = term
+        while root[0] == 'place':
+            root = root[1]
+        if not (root[0] == 'arg' and root[1] == param):
+            continue
+        found = True
+        for si, (tb, label) in enumerate(fn.succ(bb)):
+            r = reach(fn, start=(tb, -1))
+            can_ret = any(rb in r['term'] for rb in fn.ret_blocks())
+            if can_ret:
+                acc.add('*' if label == 'otherwise' else int(label))
+    return acc, found
